@@ -23,6 +23,9 @@ DEFAULT = dict(
     obj=[],         # list of objective term specs
     scales={},      # slot -> scale
     T0=0.7, TT=1.9,
+    pvals={},       # overrides of parameter values: pg, pgm, pc (list), TT, T0 (parametric horizon)
+    init=[],        # ordered set_initial calls: [target, form, value]
+    Tguess=None, t0guess=None,
 )
 
 PARAM_VALUES = dict(pg=0.45, T=1.9, t0=0.7)
@@ -448,6 +451,55 @@ class Real:
     pass
 
 
+# guesses: time expressions (both backends)
+def g_lin(m, t):
+    return 0.3 + 0.5 * t
+
+
+def g_sin(m, t):
+    return m.sin(1.1 * t) + 0.2 * t
+
+
+GUESS = {"lin": g_lin, "sin": g_sin}
+
+
+def guess_table(n, cols, which=0):
+    """n x cols table of pairwise distinct numbers"""
+    return np.array([[0.11 + 0.13 * r + 0.07 * c + 0.011 * r * c + 0.5 * which for c in range(cols)] for r in range(n)])
+
+
+def target_sym(s, target):
+    return {"T": s["T"], "t0": s["t0"]}.get(target, s.get(target))
+
+
+def apply_init(st, s, d, ent):
+    """one public set_initial call described by ent = [target, form, value]"""
+    import casadi as ca
+    target, form, val = ent
+    sym = target_sym(s, target)
+    n = sym.numel()
+    N = d["N"]
+    if form == "const":
+        v = val
+    elif form == "vec":
+        v = ca.DM(np.array(val, dtype=float).reshape(sym.shape, order="F"))
+    elif form == "arrN":
+        v = guess_table(n, N, val)
+    elif form == "arrN1":
+        v = guess_table(n, N + 1, val)
+    elif form == "np1dN":
+        v = guess_table(1, N, val).reshape(-1)
+    elif form == "np1dN1":
+        v = guess_table(1, N + 1, val).reshape(-1)
+    elif form == "dmrowN1":
+        v = ca.DM(guess_table(1, N + 1, val))
+    elif form == "expr":
+        v = GUESS[val](CA, s["t"])
+    else:
+        raise KeyError(form)
+    st.set_initial(sym, v)
+
+
 def declare(d, ocp=None, stage=None, solver=True, method=True, with_cons=True, with_obj=True):
     """Declare the case `d` through rockit's public API.  Returns a Real record.
 
@@ -458,8 +510,8 @@ def declare(d, ocp=None, stage=None, solver=True, method=True, with_cons=True, w
     hz = d["horizon"]
     sc = d.get("scales", {})
     if ocp is None:
-        t0arg = rockit.FreeTime(d["T0"]) if hz in ("t0free", "bothfree") else d["T0"]
-        Targ = rockit.FreeTime(d["TT"]) if hz in ("Tfree", "bothfree") else d["TT"]
+        t0arg = rockit.FreeTime(d["T0"] if d.get("t0guess") is None else d["t0guess"]) if hz in ("t0free", "bothfree") else d["T0"]
+        Targ = rockit.FreeTime(d["TT"] if d.get("Tguess") is None else d["Tguess"]) if hz in ("Tfree", "bothfree") else d["TT"]
         ocp = rockit.Ocp(t0=t0arg, T=Targ)
         st = ocp
     else:
@@ -468,8 +520,13 @@ def declare(d, ocp=None, stage=None, solver=True, method=True, with_cons=True, w
     r.st = st
     s = {}
     r.sym = s
+    def scl(key, shape=None):
+        v = sc.get(key, 1)
+        if isinstance(v, (list, tuple)):
+            v = ca.DM(np.array(v, dtype=float).reshape(shape, order="F"))
+        return v
     for name, (rr, cc) in state_shapes(d):
-        s[name] = st.state(rr, cc, scale=sc.get(name, 1))
+        s[name] = st.state(rr, cc, scale=scl(name, (rr, cc)))
     if d["control"] != "none":
         s["u"] = st.control(nu_of(d), 1, scale=sc.get("u", 1))
     if d["alg"]:
@@ -484,6 +541,10 @@ def declare(d, ocp=None, stage=None, solver=True, method=True, with_cons=True, w
         s["vg"] = st.variable(scale=sc.get("vg", 1))
     if d["vc"]:
         s["vc"] = st.variable(grid="control", include_last=(d["vc"] == "control+"), scale=sc.get("vc", 1))
+    if hz == "Tvar":
+        s["Tv"] = st.variable()
+        st.set_T(s["Tv"])
+        st.set_initial(s["Tv"], d["TT"] if d.get("Tguess") is None else d["Tguess"])
     if hz == "Tparam":
         s["Tp"] = st.parameter()
         st.set_T(s["Tp"])
@@ -498,20 +559,21 @@ def declare(d, ocp=None, stage=None, solver=True, method=True, with_cons=True, w
         if d["intg"] == "set_next":
             st.set_next(s[name], f[name])
         else:
-            st.set_der(s[name], f[name], scale=sc.get("der_" + name, 1))
+            st.set_der(s[name], f[name], scale=scl("der_" + name, s[name].shape))
     if d["alg"]:
         st.add_alg(alg(CA, s, d), scale=sc.get("alg", 1))
     # parameter values
+    pv = d.get("pvals", {})
     if d["pg"] == "scalar":
-        st.set_value(s["pg"], PARAM_VALUES["pg"])
+        st.set_value(s["pg"], pv.get("pg", PARAM_VALUES["pg"]))
     elif d["pg"] == "mat":
-        st.set_value(s["pg"], pgm_value())
+        st.set_value(s["pg"], np.array(pv.get("pgm", pgm_value())))
     if d["pc"]:
-        st.set_value(s["pc"], pc_table(d))
+        st.set_value(s["pc"], np.array(pv.get("pc", pc_table(d))).reshape(1, -1))
     if hz == "Tparam":
-        st.set_value(s["Tp"], d["TT"])
+        st.set_value(s["Tp"], pv.get("TT", d["TT"]))
     if hz == "t0param":
-        st.set_value(s["t0p"], d["T0"])
+        st.set_value(s["t0p"], pv.get("T0", d["T0"]))
     pt = RealPt(st, s)
     r.pt = pt
     r.cons_expr = []
@@ -533,6 +595,8 @@ def declare(d, ocp=None, stage=None, solver=True, method=True, with_cons=True, w
     if with_obj:
         for o in d["obj"]:
             st.add_objective(OBJS[o](CA, pt, d))
+    for ent in d.get("init", []):
+        apply_init(st, s, d, ent)
     if solver:
         ocp.solver("ipopt", {"ipopt.print_level": 0, "print_time": False, "ipopt.sb": "yes"})
     if method:
